@@ -598,6 +598,134 @@ def check_duplicate_routes(ctx, rng):
                 ctx.report(f'duplicate-attach-not-refused:{fe}:route', 'a second route() declaration for an occupied prefix was silently ignored: it was not refused anywhere', w)
 
 
+def check_reentrant(ctx, rng):
+    """Handlers that change the table from INSIDE their own invocation (attach a longer / shorter / sibling prefix, detach themselves,
+    detach another handler, try to take an occupied prefix): the Interest being dispatched has reached exactly the handler that was
+    the longest attached prefix when it arrived, and every later Interest follows the table as the handlers left it.  The model
+    is sequential: the actions of a handler take effect at the moment it is invoked."""
+    pool = [p for p in PREFIXES] + [(C(b'a'), C(b'b'), C(b'x')), (C(b'e'), C(b'f'))]
+    for kind in ('v2', 'v1', 'dispatcher'):
+        for rep in range(ctx.n(25, 6000)):
+            log = []
+            res = {'viol': []}
+            plan = []
+            for _ in range(rng.randint(2, 5)):
+                plan.append(('attach', rng.choice(pool), [(rng.choice(['attach', 'attach', 'detach', 'detach-self', 'attach-occupied']), rng.choice(pool))
+                                                          for _ in range(rng.choice([0, 1, 1, 2, 3]))]))
+            names = [rng.choice(INT_NAMES) for _ in range(rng.randint(4, 14))]
+            same_turn = False      # (a look-up made before an earlier handler of the same loop turn ran is left open by the statement)
+
+            async def main(S):
+                T = Target(kind, log)
+                await T.start()
+                attached = {}
+                todo = {}
+                inside = {'errors': [], 'done': []}
+                seq = [0]
+
+                async def accept(n, s_, c):
+                    return types.ValidResult.PASS
+
+                def do_attach(pre, acts):
+                    seq[0] += 1
+                    hid = seq[0]
+                    todo[hid] = list(acts)
+                    base = T.handler(hid)
+
+                    def act():
+                        for op, q in todo.pop(hid, []):         # (one-shot: the first invocation acts)
+                            own = next((k for k, v in attached.items() if v == hid), None)
+                            if op == 'detach-self':
+                                q = own
+                            if op in ('attach', 'attach-occupied'):
+                                if op == 'attach-occupied' and attached:
+                                    q = rng.choice(sorted(attached))
+                                try:
+                                    do_attach(q, [])
+                                    if q in inside.get('was', {}):
+                                        inside['errors'].append(('occupied-prefix-taken-from-inside-a-handler', q))
+                                except Exception as e:   # noqa
+                                    if q not in inside.get('was', {}):
+                                        inside['errors'].append((f'attach-inside-handler-raises:{type(e).__name__}', q))
+                                inside['was'] = dict(attached)
+                            elif q is not None and q in attached:
+                                try:
+                                    if kind == 'v2':
+                                        T.app.detach_handler(form_of(rng, q)[0])
+                                    elif kind == 'v1':
+                                        T.app.unset_interest_filter(form_of(rng, q)[0])
+                                    else:
+                                        T.d.unregister(form_of(rng, q)[0])
+                                except Exception as e:   # noqa
+                                    inside['errors'].append((f'detach-inside-handler-raises:{type(e).__name__}', q))
+                                del attached[q]
+                                inside['was'] = dict(attached)
+                            inside['done'].append(op)
+                    if kind == 'v2':
+                        def h(name, app_param, reply, context):
+                            base(name, app_param, reply, context)
+                            act()
+                    else:
+                        def h(name, param, app_param):
+                            base(name, param, app_param)
+                            act()
+                    form = form_of(rng, pre)[0]
+                    if kind == 'v2':
+                        T.app.attach_handler(form, h, accept)
+                    elif kind == 'v1':
+                        T.app.set_interest_filter(form, h)
+                    else:
+                        T.d.register(form, h)
+                    attached[pre] = hid         # (not reached when the attachment was refused)
+                inside['was'] = {}
+                for _, pre, acts in plan:
+                    if pre not in attached:
+                        do_attach(pre, acts)
+                        inside['was'] = dict(attached)
+                for j, name in enumerate(names):
+                    exp = lpm(attached, name)
+                    n0 = len(log)
+                    wire = bytes(make_interest(list(name), InterestParam(nonce=j + 1, lifetime=4000)))
+                    w = {'target': kind, 'interest': [c.hex() for c in name], 'attached_on_arrival': [[c.hex() for c in k] for k in attached],
+                         'plan': [[op, [c.hex() for c in pre], [[a, [c.hex() for c in q]] for a, q in acts]] for op, pre, acts in plan], 'index': j}
+                    try:
+                        if kind == 'dispatcher':
+                            n_, p_, a_, s_ = parse_interest(wire)
+                            T.d.dispatch(n_, p_, a_)
+                        elif same_turn:
+                            await T.face.callback(5, wire)
+                        else:
+                            await T.face.deliver(wire)
+                            for _ in range(3):
+                                await asyncio.sleep(0)
+                    except Exception as e:   # noqa
+                        res['viol'].append((f'reentrant-delivery-raises:{kind}:{type(e).__name__}@{raising_site(e)[0]}', f'delivering an Interest to a handler that edits the table raised {e!r}', w))
+                        break
+                    got = [g[0] for g in log[n0:]]
+                    ctx.event('interest-to-table-editing-handlers')
+                    ctx.case(('reentrant', kind, tuple(sorted(attached)), name, tuple(inside['done'][-3:])), nontrivial=True)
+                    if got != ([exp] if exp is not None else []):
+                        res['viol'].append((f'reentrant-wrong-delivery:{kind}', f'Interest reached handlers {got}; the longest attached prefix on arrival belongs to {exp} '
+                                            f'(handlers had edited the table from inside earlier invocations: {inside["done"]})', w))
+                        break
+                if same_turn and kind != 'dispatcher':
+                    for _ in range(3):
+                        await asyncio.sleep(0)
+                for e, q in inside['errors']:
+                    res['viol'].append((f'{e}:{kind}', f'inside a handler: {e} for prefix {rc.name_to_uri(list(q), canonical=True)}', {'target': kind}))
+                for op in inside['done']:
+                    ctx.event(f'inside-handler:{op}')
+                await T.stop()
+
+            S = vtime.run(main)
+            for v in res['viol']:
+                ctx.report(*v)
+            if S.result != 'ok':
+                ctx.report(f'reentrant-history-{S.result}:{kind}', f'history did not complete: {S.error!r}', {'target': kind})
+            for le in S.sentinel.all():
+                ctx.report(f'reentrant-background-error:{kind}', f'{le.get("repr")}', {'target': kind})
+
+
 def run(ctx):
     ctx.rule = RULE
     rng = ctx.rng
@@ -673,6 +801,9 @@ def run(ctx):
     if ctx.shard == 0:
         check_burst(ctx, rng)
     check_reply(ctx, rng)
+    check_reentrant(ctx, rng)
+    for k in ('inside-handler:attach', 'inside-handler:detach', 'inside-handler:detach-self', 'inside-handler:attach-occupied'):
+        ctx.need_event(k)
     for k in ('attach', 'detach', 'duplicate-attach', 'interest-hit', 'interest-miss', 'reply-sent', 'reply-late', 'attach-with-delivery-options',
               'reconnect-with-handlers-attached', 'register-without-handler-on-free-prefix', 'duplicate-route-declaration',
               'reply-from-blocking-handler', 'interest-parameterised-digest-at-middle', 'detach-by-unregister-command-succeeded',
